@@ -109,9 +109,17 @@ def _module(ver):
     return {4: ipv4, 6: ipv6}[ver]
 
 
+class _Text(str):
+    """a str subclass: address text often arrives as one (enum.StrEnum members, markupsafe, numpy.str_ ...)"""
+
+
 def impl_ip_init(s, version, flags):
     import netaddr
-    a = netaddr.IPAddress(s, version, flags)
+    import zlib
+    arg = s
+    if zlib.crc32(s.encode("latin-1", "replace")) % 4 == 0:
+        arg = _Text(s)          # same text, handed over as a str-subclass instance (chosen from the content)
+    a = netaddr.IPAddress(arg, version, flags)
     return [a.version, int(a)]
 
 
